@@ -203,8 +203,17 @@ where
         // `finish()` flushes any remaining input *first* and only then calls `handle_end()`,
         // so a `ContentHandlerError` from the end handler arrives after the sink already has
         // every input byte. No additional flush needed; the caller continues from where the
-        // rewriter left off.
-        self.parser.get_dispatcher().finish(chunk)
+        // rewriter left off. The bail-out handlers still have to run, as for any other
+        // graceful bail-out.
+        let res = self.parser.get_dispatcher().finish(chunk);
+
+        if let Err(e) = &res {
+            if self.should_bail_out_for(e) {
+                self.parser.get_dispatcher().run_bail_out_handlers(e);
+            }
+        }
+
+        res
     }
 
     #[cfg(feature = "_integration_test")]
